@@ -383,13 +383,17 @@ func (r *c30Run) enabled(rng *verifRNG, flavor string, failPct int) []c30Step {
 		}
 		if !r.leaderBusy(n) {
 			if !noOverlap || running == 0 {
-				out = append(out, c30Step{A: "start", N: n})
+				// a start on a node whose process is already active returns at once: keep those rare
+				if pid, ok := sys.grains.Get(key); !(ok && pid.isActive()) || rng.intn(6) == 0 {
+					out = append(out, c30Step{A: "start", N: n})
+				}
 			}
 		} else {
 			th := r.leader[n]
 			claimless := th.Last.Blocked == "get" && r.afterLostClaim(n) && r.w.reg.grainOwner(key) == -1
 			if !(noClaimless && claimless) {
-				out = append(out, c30Step{A: "lead", N: n, OK: outcome()})
+				o := outcome()
+				out = append(out, c30Step{A: "lead", N: n, OK: o}, c30Step{A: "lead", N: n, OK: o})
 			}
 		}
 		if pid, ok := sys.grains.Get(key); ok && pid.isActive() && !noDeact {
@@ -493,6 +497,10 @@ func TestVerifC30Scripts(t *testing.T) {
 	w := newC30World(t, 3)
 	defer w.close()
 	for i, sc := range scripts {
+		if vregStuck.Load() > 2 {
+			out.put(c30Trace{ID: sc.ID, Err: "skipped: the driver lost control of too many threads in earlier schedules"})
+			continue
+		}
 		out.put(c30RunScript(t, w, sc, i))
 	}
 }
